@@ -18,7 +18,8 @@ from .terms import subst
 class Spec:
     def __init__(self, model, cls, fi, consts=None, inline_methods=True, depth=0, facts=None):
         """consts: {'mode': 2, 'self._trafo': 1, ...};  facts: {source text of a condition: bool} assumed on the path"""
-        self.facts = dict(facts or {})
+        from .model import cc
+        self.facts = {cc(k): v for k, v in (facts or {}).items()}
         self.keep = set()   # names that stay symbolic (their definitions are recorded in self.defs)
         self.defs = {}
         self.breaks = []    # (env, [assumptions], stmt) for break/continue statements
